@@ -366,7 +366,7 @@ class PipeInput : public Engine {
             n = r.range(257, 600); // more than 256 dictionary entries: 2-byte indices
             cls = r.chance(1, 2) ? ARR_FULL64 : ARR_SORTED;
         }
-        if (entry.rfind("dict", 0) == 0 && r.chance(1, tier == Tier::Thorough ? 60 : 500)) {
+        if (entry.rfind("dict", 0) == 0 && r.chance(1, tier == Tier::Thorough ? 60 : 200)) {
             n = 65537 + r.below(400); // more than 65536 dictionary entries: 3-byte indices
             cls = ARR_FULL64;
         }
